@@ -234,6 +234,45 @@ def check_rejected(case):
     return res
 
 
+def check_fortran(case):
+    """Thorough tier: the infeasible-period and untouched-cells clauses on the Fortran engine (ctypes shim)."""
+    from . import c07
+    res = Result(classes=['fortran-engine'])
+    built = attempt(c07.compile_program, case['prog'])
+    if not built.ok or built.value[0] != 'ok':
+        res.tag('skipped:not-compiled')
+        return res
+    _, text, Py, F, _ = built.value
+    ref = G.Reference(case['prog'])
+    L, K = Py.LAGS, Py.LEADS
+    n = L + K + 1 + case.get('extra', 0)
+    res.nontrivial = L + K >= 1
+    for t in list(range(n)) + list(range(-n, 0)):
+        T = t + n if t < 0 else t
+        feasible = L <= T <= n - 1 - K
+        data = R.make_data(ref.names, n, case.get('bases') or [[1.0, 2.0, 0.5, 4.0]])
+        for k in data:
+            data[k] = np.abs(data[k]) % 3.0 + 0.5
+        m = F(range(100, 100 + n), **{k: v.copy() for k, v in data.items()})
+        out = R.quiet_call(attempt, m.solve_t, t, **SOLVE_KW)
+        detail = f'[Fortran engine] {text!r} LAGS={L} LEADS={K} n={n} t={t} (position {T})'
+        if not feasible:
+            if out.ok:
+                res.fail(f'fortran/infeasible-period-served/{"front" if T < L else "back"}', f'{detail}: returned {out.value!r}')
+                return res
+            compare_frame(res, 'fortran/infeasible-period', m, data, ref, n, set(), set(), detail)
+            continue
+        if not compare_frame(res, 'fortran/solve_t', m, data, ref, n, assigned_cells(ref, T), {T}, detail):
+            return res
+    return res
+
+
+def strat_fortran():
+    from hypothesis import strategies as st
+    from . import c07
+    return st.fixed_dictionaries({'prog': c07.restricted_programs(max_statements=2, max_leaves=4), 'extra': st.integers(0, 2)})
+
+
 def strategy(**kw):
     from hypothesis import strategies as st
 
@@ -263,7 +302,8 @@ def selfcheck():
 
 def phases(tier):
     quick = tier == 'quick'
-    return [
+    extra = [] if quick else [Phase('fortran-engine', check_fortran, strategy=strat_fortran, examples=300)]
+    return extra + [
         Phase('positions-enumerated', check_solve_t, gen=gen_enumerated(3 if quick else 4), exhaustive=True),
         Phase('positions', check_solve_t, strategy=strategy(), examples=500 if quick else 12000),
         Phase('solve-ranges', check_solve_range, strategy=strategy(max_statements=2), examples=200 if quick else 5000),
